@@ -30,7 +30,7 @@ BUILDS = (("san", ["worker"]),)
 def budget(tier):
     if tier == "thorough":
         return {"charts": 5000, "min_nontrivial": 1000}
-    return {"charts": 640, "min_nontrivial": 60}
+    return {"charts": 1920, "min_nontrivial": 150}
 
 
 def pml_opts():
@@ -214,6 +214,11 @@ def shard_main(ctx):
     try:
         ctx.run_hypothesis([gen.charts(pml_opts(), 'promela'), gen.event_histories(5)], lambda ch, evs: check_case(ctx, ch, evs),
                            p["charts"] // ctx.nshards + 1, case_repr)
+        hp = gen.history_profile()
+        hp.in_conds = False
+        hp.descriptors = [['a'], ['b'], ['a'], ['*']]
+        ctx.run_hypothesis([gen.charts(hp, 'promela'), gen.event_histories(6, ['a', 'b'])], lambda ch, evs: check_case(ctx, ch, evs),
+                           p["charts"] // (3 * ctx.nshards) + 1, case_repr, name="history")
         cp = gen.completion_profile()
         cp.in_conds = False
         ctx.run_hypothesis([gen.charts(cp, 'promela'), gen.event_histories(4, ['a', 'b'])], lambda ch, evs: check_case(ctx, ch, evs),
